@@ -33,6 +33,7 @@ type Scheme struct {
 	dkgRunning         bool
 	setupOnce          sync.Once
 	lock               sync.RWMutex
+	storedDataLock     sync.RWMutex // guards StoredData, which may be set while a signing session that was given up winds down
 	syncsInProgress    map[string]func(uint16, []byte)
 	rbcInProgress      map[string]func(m RBCMessage, from uint16)
 	messageClassifiers map[string]func([]byte) (uint8, bool, error)
@@ -50,6 +51,8 @@ type Scheme struct {
 }
 
 func (s *Scheme) SetStoredData(d []byte) {
+	s.storedDataLock.Lock()
+	defer s.storedDataLock.Unlock()
 	s.StoredData = d
 }
 
@@ -480,9 +483,15 @@ func (s *Scheme) ensureDKGNotRunning() error {
 	return nil
 }
 
+func (s *Scheme) storedData() []byte {
+	s.storedDataLock.RLock()
+	defer s.storedDataLock.RUnlock()
+	return s.StoredData
+}
+
 func (s *Scheme) ThresholdPK() ([]byte, error) {
 	signer := s.SignerFactory(uint16(computeMembership(s.Membership()).partyIDByUniversalID(s.SelfID)))
-	if err := signer.SetShareData(s.StoredData); err != nil {
+	if err := signer.SetShareData(s.storedData()); err != nil {
 		s.Logger.Errorf("Failed setting share data: %v", err)
 		return nil, err
 	}
@@ -703,7 +712,7 @@ func (s *Scheme) prepareSigning(ctx context.Context, membership *membership, par
 	}
 
 	// The signing instance must be fully set up before it becomes reachable by incoming messages
-	if err := signingProtocol.SetShareData(s.StoredData); err != nil {
+	if err := signingProtocol.SetShareData(s.storedData()); err != nil {
 		return nil, err
 	}
 
@@ -775,7 +784,7 @@ func (s *Scheme) initializeDKG(dkg KeyGenerator, threshold int, members []Univer
 
 func (s *Scheme) initializeThresholdSigning(membership *membership, parties []PartyID, topicHash []byte, signers []UniversalID) (Signer, error) {
 	signer := s.SignerFactory(uint16(membership.partyIDByUniversalID(s.SelfID)))
-	if err := signer.SetShareData(s.StoredData); err != nil {
+	if err := signer.SetShareData(s.storedData()); err != nil {
 		s.Logger.Errorf("Failed setting share data: %v", err)
 		return nil, err
 	}
